@@ -48,7 +48,7 @@ AtomsOf(t) ==
       [] t = "real"    -> {N(0), N(2), Rl("0.5"), Rl("-1.25")}
       [] t = "boolean" -> {B(TRUE), B(FALSE)}
       [] t = "string"  -> {S(""), S("a"), S("set"), S("b c")}
-      [] t = "uuid"    -> {Uuid(U1), Uuid(U2), Named("row1")}
+      [] t = "uuid"    -> {Uuid(U1), Uuid(U2), Named("row1"), Named("newPort_A")}
 \* the precise atoms (no 64-bit extremes): the grammar of C12; the extremes are a group of their own
 PlainAtomsOf(t) == {x \in AtomsOf(t) : x.k # "big"}
 
